@@ -3,7 +3,7 @@ from props.fsmlib import *
 
 def cases(tier):
     L = []
-    fams = ['f5', 'foroot'] if tier == 'quick' else ['f5', 'foroot', 'fsel', 'f10', 'fo2', 'f3w']
+    fams = ['f5', 'f3w'] if tier == 'quick' else ['f5', 'foroot', 'fsel', 'f10', 'fo2', 'f3w']
     T = 1 if tier == 'quick' else 3
     for fam in fams:
         o = dict(sublimit=2, features=['TRANSITION_HISTORY'], callbacks=['guard', 'life', 'select'], act=['guard'], kinds=0x9e)
